@@ -190,7 +190,9 @@ def write_evidence(pid, mod, tier, seed, wall, agg, n_cases, n_done, viol_total,
         "real_components": "breadlog release binary built from /repo (main, config, finder, parser, generator), async-std, "
                            "blocking, std, signal-hook, serde_yaml, walkdir, uuid, glibc, kernel tmpfs",
         "simulated_components": "outcomes of filesystem calls (faults), process death, signal arrival, directory order, "
-                                "getrandom, wall clock (LD_PRELOAD seam); developer edits and world contents (generator)",
+                                "getrandom, wall clock and its starting point, st_dev of a declared mount point, stdout's reader, operation latency "
+                                "(stall), RLIMIT_NOFILE (LD_PRELOAD seam and process launcher); developer edits and world contents "
+                                "(generator)",
         "repo_rev": core.repo_rev(),
     }
     doc = {"property_id": pid, "tier": tier, "seed": seed, "level": mod.LEVEL, "coverage": cov,
